@@ -396,4 +396,85 @@ theorem parseAbbrevs_enc (abbrevs : List Abbrev) (h : ∀ a, a ∈ abbrevs → a
       simp only [Out.bind_ok]
       rw [ih (fun b hb => h b (by simp [hb])) f (by simpa using hf)]
       rfl
+/-! ### unit references, parent chains, accessors -/
+
+open Gimli.Index (flatMap_length_const drop_flatMap_const) in
+/-- entry `i` of the foreign type-unit list (8-byte signatures) -/
+theorem foreignTypeUnit_table (e : Endian) (ix : Index) (sigs : List Nat) (j : Nat) (hj : j < sigs.length)
+    (hl : ix.foreignTuList = sigs.flatMap fun v => toBytes e 8 v) (hb : ∀ v, v ∈ sigs → v < 256 ^ 8) :
+    ix.foreignTypeUnit e j = .ok sigs[j] := by
+  unfold Index.foreignTypeUnit skipTo
+  have hf : ∀ a : Nat, (toBytes e 8 a).length = 8 := fun a => toBytes_length e 8 a
+  have hlen := flatMap_length_const (fun v => toBytes e 8 v) 8 hf sigs
+  rw [hl, if_pos (by rw [hlen, Nat.mul_comm]; exact Nat.mul_le_mul_left _ (by omega))]
+  simp only [Out.bind_ok]
+  rw [drop_flatMap_const _ _ hf, List.drop_eq_getElem_cons hj, List.flatMap_cons,
+    readFixed_toBytes e 8 _ _ (hb _ (List.getElem_mem hj))]
+  rfl
+
+/-- **unit references of an entry resolve through the right list**: `DW_IDX_compile_unit` indexes
+the CU list; `DW_IDX_type_unit` indexes the local TU list first and the foreign TU list after it -/
+theorem units_exact (e : Endian) (ix : Index) (cus ltus ftus : List Nat)
+    (hcu : ix.cuList = cus.flatMap fun v => toBytes e ix.format.wordSize v)
+    (hltu : ix.localTuList = ltus.flatMap fun v => toBytes e ix.format.wordSize v)
+    (hftu : ix.foreignTuList = ftus.flatMap fun v => toBytes e 8 v)
+    (hlc : ix.localTuCount = ltus.length)
+    (hbc : ∀ v, v ∈ cus → v < 256 ^ ix.format.wordSize)
+    (hbl : ∀ v, v ∈ ltus → v < 256 ^ ix.format.wordSize)
+    (hbf : ∀ v, v ∈ ftus → v < 256 ^ 8) :
+    (∀ i (hi : i < cus.length), ix.compileUnit e i = .ok cus[i]) ∧
+    (∀ i (hi : i < ltus.length), ix.typeUnit e i = .ok (.local_ ltus[i])) ∧
+    (∀ j (hj : j < ftus.length), ix.typeUnit e (ltus.length + j) = .ok (.foreign ftus[j])) := by
+  refine ⟨?_, ?_, ?_⟩
+  · intro i hi
+    unfold Index.compileUnit
+    rw [hcu]; exact offsetAt_table e ix.format cus i hi hbc
+  · intro i hi
+    unfold Index.typeUnit Index.localTypeUnit
+    rw [if_neg (by omega), hltu, offsetAt_table e ix.format ltus i hi hbl]
+    rfl
+  · intro j hj
+    unfold Index.typeUnit
+    rw [if_pos (by omega), hlc, Nat.add_sub_cancel_left, foreignTypeUnit_table e ix ftus j hj hftu hbf]
+    rfl
+
+/-- **parent chains**: the entry a `DW_IDX_parent` offset refers to is parsed back as that entry -/
+theorem nameEntry_at (e : Endian) (ix : Index) (pre post : Bytes) (en : AbsEntry) (h : en.Ok ix.abbrevs)
+    (hpool : ix.entryPool = pre ++ (encEntry e en ++ post)) :
+    ix.nameEntry e pre.length = .ok (entryOf pre.length en) := by
+  unfold Index.nameEntry
+  rw [hpool]
+  have hs : skipTo (pre ++ (encEntry e en ++ post)) pre.length = .ok (encEntry e en ++ post) := by
+    simp [skipTo]
+  rw [hs]
+  simp only [Out.bind_ok]
+  rw [parseEntry_enc e ix.abbrevs en h]
+  rfl
+
+/-- the five accessors read the first attribute of their `DW_IDX` name and accept exactly the
+value classes the standard assigns to it -/
+theorem accessors_exact (e : Endian) (ix : Index) (en : Entry) :
+    (firstAttr en 3 = none → en.dieOffset = .ok none) ∧
+    (∀ f v, firstAttr en 3 = some ⟨3, f, .offset v⟩ → en.dieOffset = .ok (some v)) ∧
+    (firstAttr en 4 = none → en.parent = .ok none) ∧
+    (∀ f v, firstAttr en 4 = some ⟨4, f, .offset v⟩ → en.parent = .ok (some (some v))) ∧
+    (∀ f, firstAttr en 4 = some ⟨4, f, .flag true⟩ → en.parent = .ok (some none)) ∧
+    (∀ f v, firstAttr en 5 = some ⟨5, f, .unsigned v⟩ → en.typeHash = .ok (some v)) ∧
+    (firstAttr en 1 = none → en.compileUnit e ix = .ok none) ∧
+    (∀ f v, firstAttr en 1 = some ⟨1, f, .unsigned v⟩ → v < 2 ^ 32 →
+      en.compileUnit e ix = (ix.compileUnit e v).map some) ∧
+    (firstAttr en 2 = none → en.typeUnit e ix = .ok none) ∧
+    (∀ f v, firstAttr en 2 = some ⟨2, f, .unsigned v⟩ → v < 2 ^ 32 →
+      en.typeUnit e ix = (ix.typeUnit e v).map some) := by
+  refine ⟨?_, ?_, ?_, ?_, ?_, ?_, ?_, ?_, ?_, ?_⟩
+  · intro h; simp [Entry.dieOffset, h]
+  · intro f v h; simp [Entry.dieOffset, h]
+  · intro h; simp [Entry.parent, h]
+  · intro f v h; simp [Entry.parent, h]
+  · intro f h; simp [Entry.parent, h]
+  · intro f v h; simp [Entry.typeHash, h]
+  · intro h; simp [Entry.compileUnit, h]
+  · intro f v h hv; simp only [Entry.compileUnit, h]; rw [if_pos hv]
+  · intro h; simp [Entry.typeUnit, h]
+  · intro f v h hv; simp only [Entry.typeUnit, h]; rw [if_pos hv]
 end Gimli.Names
